@@ -195,6 +195,17 @@ def ctext(n) -> str:
     return "<" + str(k) + ">"
 
 
+def _arg_type(n):
+    """declared C type of an argument expression before implicit promotion/conversion"""
+    while n.get("kind") in ("ParenExpr", "ImplicitCastExpr", "ConstantExpr"):
+        inner = [c for c in n["inner"] if c]
+        if n.get("kind") == "ImplicitCastExpr" and n.get("castKind") not in ("LValueToRValue", "NoOp", "IntegralCast"):
+            break
+        n = inner[0]
+    t = n.get("type", {})
+    return t.get("qualType")
+
+
 def strip(n):
     """skip parens and implicit/no-op casts"""
     while n.get("kind") in ("ParenExpr", "ImplicitCastExpr", "ConstantExpr") or (
@@ -1402,6 +1413,17 @@ class CAnalysis:
                 i += 2
             elif fmt[i] in "iIlLnkKbBhH":
                 self.ev(args[ai], st)
+                # unit / C type agreement (R2): a signed unit fed from an unsigned value of the same
+                # width (or the reverse) changes the sign of large values on the Python side
+                at = _arg_type(args[ai])
+                signed_units = {"i": "int", "l": "long", "L": "long long", "n": "ssize_t", "b": "char", "h": "short"}
+                unsigned_units = {"I": "unsigned int", "k": "unsigned long", "K": "unsigned long long", "B": "unsigned char", "H": "unsigned short"}
+                if at is not None:
+                    unsigned_arg = at.startswith("unsigned") or at in ("uint32_t", "uint64_t", "uint16_t", "uint8_t", "size_t")
+                    wide = {"int": 32, "long": 64, "long long": 64, "ssize_t": 64, "char": 8, "short": 16}
+                    aw = {"unsigned int": 32, "uint32_t": 32, "unsigned long": 64, "uint64_t": 64, "unsigned long long": 64, "size_t": 64, "unsigned short": 16, "uint16_t": 16, "unsigned char": 8, "uint8_t": 8}.get(at)
+                    bad = fmt[i] in signed_units and unsigned_arg and aw is not None and aw >= wide[signed_units[fmt[i]]]
+                    self.ob("R2", n, f"Py_BuildValue unit '{fmt[i]}' for {ctext(args[ai])}", not bad, f"unit '{fmt[i]}' converts a C {signed_units.get(fmt[i], '')} but the argument is {at}: values with the top bit set arrive negative in Python", st)
                 ai += 1
                 i += 1
             elif fmt[i] in "()[]{} ,:":
